@@ -103,8 +103,8 @@ fn fnv(h: &mut u64, bytes: &[u8]) {
     }
 }
 impl Doc {
-    /// the rendering reaches the formatter in different fragmentations: as one string, line by line with
-    /// separate newlines, or character by character
+    /// the rendering reaches the formatter in different fragmentations: as one string, in three pieces that cut across
+    /// line boundaries, line by line with separate newlines, or character by character
     fn emit(&self, f: &mut fmt::Formatter<'_>, letter: char) -> fmt::Result {
         if (self.tok % 7 == 6 || self.tok == 2) && ODD.load(std::sync::atomic::Ordering::Relaxed) == 0 {
             let mut inner: indextree::Arena<String> = indextree::Arena::new();
@@ -117,7 +117,19 @@ impl Doc {
         }
         let txt = self.render(letter);
         match self.tok % 4 {
-            0 | 1 => f.write_str(&txt),
+            0 => f.write_str(&txt),
+            1 => {
+                // three pieces that do not respect line boundaries: the first character, everything up to the last
+                // character (starts in the middle of a line, contains every newline, does not end with one), the last character
+                let idx: Vec<usize> = txt.char_indices().map(|(i, _)| i).collect();
+                if idx.len() < 3 {
+                    return f.write_str(&txt);
+                }
+                let (a, z) = (idx[1], idx[idx.len() - 1]);
+                f.write_str(&txt[..a])?;
+                f.write_str(&txt[a..z])?;
+                f.write_str(&txt[z..])
+            }
             2 => {
                 for (i, l) in txt.split('\n').enumerate() {
                     if i > 0 {
